@@ -271,6 +271,9 @@ func (c *monC12) After(m *Machine, s *Step) *Violation {
 		if strings.HasPrefix(op.K, "sms") {
 			kind = "sms"
 		}
+		if !m.C.Cfg.HasSetup(kind) {
+			return nil // the module's routes do not exist in this configuration
+		}
 		who := r.UIDBefore()
 		if who == "" && strings.HasSuffix(op.K, "validate") {
 			who = r.SessBefore[pendingKeys[kind]]
